@@ -141,6 +141,16 @@ func mergeToWriter(segments []*Segment, drops []*roaring.Bitmap,
 		}
 	} else {
 		dictLocs = make([]uint64, len(fieldsInv))
+
+		// nothing survives: every document of every segment is dropped
+		newDocNums = make([][]uint64, len(segments))
+		for segI, seg := range segments {
+			segNewDocNums := make([]uint64, seg.footer.numDocs)
+			for docNum := range segNewDocNums {
+				segNewDocNums[docNum] = docDropped
+			}
+			newDocNums[segI] = segNewDocNums
+		}
 	}
 
 	var fieldsIndexOffset uint64
